@@ -61,8 +61,9 @@ class Obj:
 
 
 class SliceV:
-    def __init__(self, start, stop, step):
+    def __init__(self, start, stop, step, indices_result=None):
         self.start, self.stop, self.step = start, stop, step
+        self.indices_result = indices_result      # constant (start, stop, step) of slice.indices(N) on this cell, if the caller knows it
 
 
 TOP = None
@@ -97,6 +98,9 @@ class Interp:
         self.sym = sym_range
         self.max_depth = max_depth
         self.unknown_reasons = []
+        self.opaque_methods = set()
+        self.calls = []          # (method name, evaluated positional args) of calls to opaque methods of self
+        self.returned = []       # Return statements of the analysed method (depth 0) that were reached
 
     # ---- numeric helpers -------------------------------------------------
     def num(self, v):
@@ -357,7 +361,7 @@ class Interp:
 
     def call(self, e, env, depth):
         fn = e.func
-        args = [self.ev(a, env, depth) for a in e.args]
+        args = [self.ev(a.value if isinstance(a, ast.Starred) else a, env, depth) for a in e.args]
         name = None
         if isinstance(fn, ast.Attribute) and isinstance(fn.value, ast.Name) and fn.value.id in ("np", "numpy"):
             name = "np." + fn.attr
@@ -400,6 +404,8 @@ class Interp:
             return BoolV(None)
         if name == "len":
             a0 = e.args[0] if e.args else None
+            if isinstance(a0, ast.Name) and a0.id == env.get("__self__"):
+                return self.self_attrs.get("len:self", TOP)
             if isinstance(a0, ast.Attribute) and isinstance(a0.value, ast.Name) and a0.value.id == env.get("__self__"):
                 return self.self_attrs.get("len:" + a0.attr, TOP)
             return TOP
@@ -407,6 +413,14 @@ class Interp:
             return args[0] if isinstance(args[0], Iv) else TOP       # one abstract row stands for every row
         # constructor / method of the analysed class
         selfn = env.get("__self__")
+        if isinstance(fn, ast.Attribute) and fn.attr == "indices" and len(e.args) == 1:
+            base = self.ev(fn.value, env, depth)
+            if isinstance(base, SliceV) and base.indices_result is not None:
+                return tuple(Iv(v, v) for v in base.indices_result)
+            return TOP
+        if isinstance(fn, ast.Attribute) and isinstance(fn.value, ast.Name) and fn.value.id == selfn and fn.attr in self.opaque_methods:
+            self.calls.append((fn.attr, args))
+            return TOP
         if isinstance(fn, ast.Attribute) and isinstance(fn.value, ast.Name) and fn.value.id == selfn:
             if fn.attr == "__class__":
                 return Obj(args, {k.arg: self.ev(k.value, env, depth) for k in e.keywords}, e)
@@ -485,6 +499,8 @@ class Interp:
             return [env]
         if isinstance(s, ast.Return):
             outs.append(self.ev(s.value, env, depth) if s.value is not None else NONE)
+            if depth == 0:
+                self.returned.append(s)
             return []
         if isinstance(s, ast.Raise):
             return []
